@@ -125,11 +125,14 @@ namespace cs
                         Flavour == 3, typename K::template C<T, AlP3>,
                         typename std::conditional<
                             Flavour == 4, typename K::template C<T, AlP4>,
-                            typename std::conditional<Flavour == 5, typename K::template C<T, AlPmr>,
-                                                      typename K::template C<T, AlFb>>::type>::type>::type>::type>::
-                type>::type;
+                            typename std::conditional<
+                                Flavour == 5, typename K::template C<T, AlPmr>,
+                                typename std::conditional<Flavour == 6, typename K::template C<T, AlFb>,
+                                                          typename K::template C<T, AlStdPmr>>::type>::type>::
+                                type>::type>::type>::type>::type;
         // what the specification (propagation_traits, default: everything propagates) says about this flavour
-        constexpr bool P_MOVE = Flavour != 3, P_COPY = Flavour < 3 || Flavour >= 5;
+        constexpr bool P_MOVE = Flavour != 3 && Flavour != 7, P_COPY = Flavour < 3 || Flavour == 5 || Flavour == 6;
+        constexpr bool P_SWAP = Flavour != 7; // (std::pmr::polymorphic_allocator propagates nowhere)
         using RT    = typename K::template C<T, AlRef>;
         using Alloc = typename CT::allocator_type;
         (void)sizeof(Elem);
@@ -146,7 +149,7 @@ namespace cs
         }
         // flavour 5: requests above the leaf's max_node_size() travel as arrays of that size
         static std::unique_ptr<fm::memory_resource_adapter<LeafA>> pmr[2];
-        if (Flavour == 5)
+        if (Flavour == 5 || Flavour == 7)
             for (int i = 0; i < 2; ++i)
             {
                 env.leaf[i].max_node = std::size_t(plan.num("pmr_max_node", 64));
@@ -166,7 +169,9 @@ namespace cs
             if constexpr (Flavour == 6)
                 return Alloc(*fb[leaf]);
             else
-            if constexpr (Flavour == 5)
+            if constexpr (Flavour == 7)
+                return Alloc(pmr[leaf].get());
+            else if constexpr (Flavour == 5)
                 return Alloc(fm::memory_resource_allocator(pmr[leaf].get()));
             else if constexpr (Flavour == 2)
                 return Alloc(StatelessLeaf<1>{});
@@ -201,7 +206,7 @@ namespace cs
             s[i].c.reset(new CT(make_alloc(s[i].leaf)));
         }
         // (a memory_resource sees bytes only: everything up to max_node_size() arrives as a node there)
-        const std::size_t node_limit = Flavour == 5 ? 0 : K::template node_size<T>();
+        const std::size_t node_limit = (Flavour == 5 || Flavour == 7) ? 0 : K::template node_size<T>();
         const int         leaves     = Flavour == 6 ? 4 : 2;
         std::size_t       log_pos    = 0;
 
@@ -322,6 +327,20 @@ namespace cs
                         s[a].leaf = s[b].leaf;
                     else
                         stats().hit("reach.container_assign_without_propagation");
+                    ++ctx.cross_ops;
+                }
+                else if (o.kind == "swp" && a != b && !P_SWAP && s[a].leaf != s[b].leaf)
+                {
+                    // (swapping containers whose allocators are unequal and do not propagate is undefined)
+                }
+                else if (o.kind == "cpc" && a != b && Flavour == 7)
+                {
+                    // (polymorphic_allocator::select_on_container_copy_construction takes the default resource,
+                    //  not an allocator under test: copy with the allocator given explicitly instead)
+                    s[a].c.reset();
+                    s[a].c.reset(new CT(*s[b].c, make_alloc(s[b].leaf)));
+                    ref[a]    = ref[b];
+                    s[a].leaf = s[b].leaf;
                     ++ctx.cross_ops;
                 }
                 else if (o.kind == "swp" && a != b)
